@@ -152,8 +152,13 @@ func runC14(t *simrt.Tape, o Opts) Outcome {
 		}
 		// no stored row was modified or removed by the SDK
 		count(st.Oracle, "rows-unmodified")
-		for id, m := range w.Store.AtInsert {
-			for c, b0 := range m {
+		var rowIDs []string
+		for id := range w.Store.AtInsert {
+			rowIDs = append(rowIDs, id)
+		}
+		sortStrings(rowIDs)
+		for _, id := range rowIDs {
+			for c, b0 := range w.Store.AtInsert[id] {
 				b1, ok := w.Store.Rows[id][c]
 				if !ok {
 					w.Violate("row-removed", "row-removed", "row %s@%d disappeared from the metastore", id, c)
